@@ -166,6 +166,9 @@ func (ex *Exec) invokeCall(st *State, fr *Frame, call *ssa.CallCommon, recv *Val
 	} else {
 		key = "(" + it.String() + ")." + m.Name()
 	}
+	if ex.tryDevirt(st, fr, call, recv, args, instr, k) {
+		return
+	}
 	if key == ".(error).Error" {
 		// error text is opaque
 		k(st, scalar(ex.fresh("errtext", ex.strSort())))
@@ -490,6 +493,32 @@ func (ex *Exec) evalModTarget(ctx *SpecCtx, c *Clause) []*modTarget {
 			return []*modTarget{{kind: "map", typ: bt, ref: ex.valTerm(base.V), src: c.Src}}
 		}
 	case *ast.CallExpr:
+		if id, ok := x.Fun.(*ast.Ident); ok && id.Name == "each" && len(x.Args) >= 4 {
+			// each(n, T, cond, n.f1, n.f2, ...): the fields of every object satisfying cond (in the pre-state)
+			vn, ok := x.Args[0].(*ast.Ident)
+			if !ok {
+				ctx.fail("each: first argument must be a variable name")
+			}
+			t := ctx.resolveType(x.Args[1])
+			bv := ctx.newBound(vn.Name, ex.env.scalarSort(t))
+			inner := ctx.with(map[string]*SV{vn.Name: {V: scalar(bv), T: t}})
+			cond := inner.EvalBool(x.Args[2])
+			var out []*modTarget
+			for _, fe := range x.Args[3:] {
+				sub := inner.ex.evalModTarget(inner, &Clause{Expr: fe, Src: types.ExprString(fe)})
+				for _, mt := range sub {
+					if mt.kind != "field" {
+						ctx.fail("each: only field targets are supported")
+					}
+					mt.kind = "fieldq"
+					mt.bound = bv
+					mt.cond = cond
+					mt.src = c.Src
+					out = append(out, mt)
+				}
+			}
+			return out
+		}
 		if id, ok := x.Fun.(*ast.Ident); ok && id.Name == "global" {
 			// global(pkgvar)
 			sv := ctx.eval(x.Args[0])
@@ -515,6 +544,16 @@ func (ex *Exec) havocTargets(st *State, targets []*modTarget) {
 			st.assume(ex.typeInv(t.typ, v, nil))
 		case "elems":
 			ex.havocElems(st, t.typ, t.sl)
+		case "fieldq":
+			for _, l := range ex.env.leaves(t.typ) {
+				key := ex.fieldKey(t.base, t.path+l.Path)
+				cur := ex.heapGet(st, key, ArraySort(SRef, l.Sort))
+				nv := ex.fresh("hvq", cur.Sort)
+				x := Sym(fmt.Sprintf("x!hq%d", ex.nfresh), SRef)
+				cond := t.cond.Subst(map[string]*Term{t.bound.Op: x})
+				st.assume(Forall([]*Term{x}, Implies(Not(cond), Eq(Select(nv, x), Select(cur, x))), []*Term{Select(nv, x)}))
+				st.heap[key] = nv
+			}
 		case "gglobal":
 			for _, l := range ex.env.leaves(t.typ) {
 				st.heap[t.key+" "+l.Path] = ex.fresh("hv_gg", l.Sort)
@@ -581,12 +620,16 @@ func (ex *Exec) checkFrame(st *State, site string) {
 		case strings.HasPrefix(key, "F "):
 			var excl []*Term
 			for _, t := range ex.modTargets {
-				if t.kind != "field" {
+				if t.kind != "field" && t.kind != "fieldq" {
 					continue
 				}
 				for _, l := range ex.env.leaves(t.typ) {
 					if ex.fieldKey(t.base, t.path+l.Path) == key {
-						excl = append(excl, Neq(x, t.ref))
+						if t.kind == "field" {
+							excl = append(excl, Neq(x, t.ref))
+						} else {
+							excl = append(excl, Not(t.cond.Subst(map[string]*Term{t.bound.Op: x})))
+						}
 					}
 				}
 			}
@@ -943,6 +986,14 @@ func (ex *Exec) mapValKey(mt *types.Map, leafPath string) string {
 func (ex *Exec) mapLookup(st *State, m *Term, mt *types.Map, k *Term) *Val {
 	has := ex.mapHas(st, m, mt, k)
 	ks := ex.env.scalarSort(mt.Key())
+	if pt := ex.structPtr(mt.Elem()); pt != nil {
+		// typing of the initial heap: map values of pointer type point to objects of that type
+		h0 := ex.heap0(ex.mapValKey(mt, ""), ArraySort(SRef, ArraySort(ks, SRef)))
+		x := Sym("m!mv", SRef)
+		kk := Sym("k!mv", ks)
+		v := Select(Select(h0, x), kk)
+		ex.addAxiom(Forall([]*Term{x, kk}, Or(Eq(v, IntLit(0)), Eq(ex.dtype(v), ex.typeTag(pt))), []*Term{v}))
+	}
 	return ex.buildVal(mt.Elem(), "", func(l Leaf) *Term {
 		arr := ex.heapGet(st, ex.mapValKey(mt, l.Path), ArraySort(SRef, ArraySort(ks, l.Sort)))
 		z := ex.env.zeroLeaf(l)
@@ -1143,7 +1194,10 @@ func (ex *Exec) rangeNext(st *State, x *ssa.Next) func(k func(*State)) {
 var typeTags = map[string]int64{}
 
 func (ex *Exec) typeTag(t types.Type) *Term {
-	k := ex.env.typeKey(t)
+	return ex.typeTagKey(ex.env.typeKey(t))
+}
+
+func (ex *Exec) typeTagKey(k string) *Term {
 	id, ok := typeTags[k]
 	if !ok {
 		id = int64(len(typeTags) + 1)
@@ -1203,7 +1257,8 @@ func (ex *Exec) typeAssert(st *State, x *ssa.TypeAssert) *Val {
 		ok = And(Neq(r, IntLit(0)), ex.env.d.Apply(f.Name, ex.dtype(r)))
 		res = scalar(r)
 	} else {
-		ok = ex.dynTypeIs(r, to)
+		at := ex.env.d.Func("any_type", SBool, SRef)
+		ok = Or(ex.dynTypeIs(r, to), And(Neq(r, IntLit(0)), ex.env.d.Apply(at.Name, r)))
 		switch to.Underlying().(type) {
 		case *types.Pointer, *types.Map, *types.Chan, *types.Signature:
 			res = scalar(r)
@@ -1490,7 +1545,18 @@ func (ex *Exec) execSelect(st *State, fr *Frame, x *ssa.Select, k func(*State)) 
 }
 
 func (ex *Exec) execRecv(st *State, fr *Frame, x *ssa.UnOp, ch *Val) func(k func(*State)) {
-	panic(oos("channel receive"))
+	// a receive blocks until a value arrives or the channel is closed; the received value is arbitrary
+	elemT := x.Type()
+	if x.CommaOk {
+		v := ex.freshVal(elemT.(*types.Tuple).At(0).Type(), "recv")
+		st.regs[x] = &Val{Fs: []*Val{v, scalar(ex.fresh("recv_ok", SBool))}}
+	} else {
+		st.regs[x] = ex.freshVal(elemT, "recv")
+	}
+	if len(st.held) > 0 {
+		ex.check(st, "lock", ex.site("lock:blocking", x), TFalse, "blocking channel receive while holding a lock", ex.pos(x))
+	}
+	return nil
 }
 
 // ---- intrinsics: library functions with built-in semantics ----
@@ -1637,3 +1703,60 @@ func (ex *Exec) lockOp(st *State, fr *Frame, key string, recv *Val, instr ssa.In
 
 func (ex *Exec) monitorEnter(st *State, fr *Frame, name string, recv *Val, instr ssa.Instruction) {}
 func (ex *Exec) monitorExit(st *State, fr *Frame, name string, recv *Val, instr ssa.Instruction)  {}
+
+// tryDevirt resolves an interface call to the contract of a concrete method
+// when the function's contract declares `devirt T`: the receiver must then
+// provably have dynamic type T (obligation).
+func (ex *Exec) tryDevirt(st *State, fr *Frame, call *ssa.CallCommon, recv *Val, args []*Val, instr ssa.Instruction, k func(st *State, res *Val)) bool {
+	if fr.spec == nil || len(fr.spec.Devirt) == 0 {
+		return false
+	}
+	ctx := ex.frameCtx(st, fr)
+	for _, te := range fr.spec.Devirt {
+		t := ctx.tryResolveType(te)
+		if t == nil {
+			continue
+		}
+		n, ok := types.Unalias(derefType(t)).(*types.Named)
+		if !ok || n.Obj().Pkg() == nil {
+			continue
+		}
+		star := ""
+		if _, isPtr := t.Underlying().(*types.Pointer); isPtr {
+			star = "*"
+		}
+		key := n.Obj().Pkg().Path() + ".(" + star + n.Obj().Name() + ")." + call.Method.Name()
+		callee := ex.P.Funcs[key]
+		cs := ex.P.Specs.Funcs[key]
+		if callee == nil || cs == nil {
+			continue
+		}
+		subst := map[*types.TypeParam]types.Type{}
+		for k2, v := range fr.subst {
+			subst[k2] = v
+		}
+		if rtp := callee.Signature.RecvTypeParams(); rtp != nil && n.TypeArgs() != nil {
+			for i := 0; i < rtp.Len() && i < n.TypeArgs().Len(); i++ {
+				if rtp.At(i) != n.TypeArgs().At(i) {
+					subst[rtp.At(i)] = n.TypeArgs().At(i)
+				}
+			}
+		}
+		r := ex.valTerm(recv)
+		ex.check(st, "devirt", ex.site("devirt:"+call.Method.Name(), instr), ex.dynTypeIs(r, t), "receiver of "+call.Method.Name()+" has dynamic type "+t.String(), ex.pos(instr))
+		st.assume(ex.dynTypeIs(r, t))
+		all := append([]*Val{scalar(r)}, args...)
+		ex.callees[shortKey(key)] = true
+		if cs.Inline {
+			ex.inlineCall(st, fr, callee, cs, subst, nil, all, instr, k)
+			return true
+		}
+		saved := ex.env.subst
+		ex.env.subst = subst
+		res := ex.callContract(st, fr, cs, callee.Signature, callee, all, instr)
+		ex.env.subst = saved
+		k(st, res)
+		return true
+	}
+	return false
+}
